@@ -52,10 +52,23 @@ let oracle_c01_case script trace =
   let fail m = if !err = None then err := Some m in
   List.iteri (fun li line ->
     match parse_line line with
-    | Some ("ck_new", a) -> cfg := { c_kind = (if str a "kind" "host" = "svc" then KService else KHost);
+    | Some (("ck_new" | "ckf_new"), a) -> cfg := { c_kind = (if str a "kind" "host" = "svc" then KService else KHost);
                                      c_max = z_of_int (num a "max" 3); c_volatile = (num a "vol" 0 <> 0) }
     | Some ("now", a) -> now := tnum (List.hd a.pos)
-    | Some ("cr", a) when str a "on" "" <> "host" ->
+    | Some (("ack" | "unack" | "ackread" | "cmtimer" | "dt_add" | "dt_remove" | "dt_starttimer" | "dt_cleanup"
+            | "fire" | "parent" | "pause" | "nextcheck") as opn, _) ->
+      (* combined fixture (CkLayer.v: C01_full_other_ops): no other operation touches state / state type / attempt *)
+      (match !tr with
+       | [] -> fail (Printf.sprintf "step=%d missing-observation" li)
+       | l :: rest ->
+         tr := rest;
+         if is_bad_line l then fail (Printf.sprintf "step=%d crash %s" li l) else begin
+           let t = toks_of l in
+           let stline = String.concat " " (List.filter (fun x -> List.exists (fun p -> String.length x > 3 && String.sub x 0 3 = p) ["st="; "ty="; "at="; "lh="]) t) in
+           if !last_state <> "" && stline <> !last_state then
+             fail (Printf.sprintf "step=%d layering %s-changed-state" li opn)
+         end)
+    | Some (("cr" | "crf") as opn, a) when str a "on" "" <> "host" ->
       (match !tr with
        | [] -> fail (Printf.sprintf "step=%d missing-observation" li)
        | l :: rest ->
@@ -63,7 +76,8 @@ let oracle_c01_case script trace =
          if is_bad_line l then fail (Printf.sprintf "step=%d crash %s" li l) else begin
          let t = toks_of l in
          let geti k = match tok_val t k with Some v -> int_of_string v | None -> -1 in
-         let res = geti "res" in
+         (* combined fixture: a rejected (stale) result raises no new-result event *)
+         let res = if opn = "crf" then (if List.mem "ncr" t then 0 else 3) else geti "res" in
          let start = if has a "start" then tnum (str a "start" "0") else !now in
          let stale = (match !last_start with Some ls -> ls <= !now && start < ls | None -> false) in
          let stline = String.concat " " (List.filter (fun x -> List.exists (fun p -> String.length x > 3 && String.sub x 0 3 = p) ["st="; "ty="; "at="; "lh="]) t) in
